@@ -67,11 +67,13 @@ const PLACEMENTS = {
   'else-if-unbraced': (R) => `let ${R} = 'U1';\nfunction f(act) {\n  const v = $.p(act, 1) + $.p(act, 2);\n  if ($.u('c', 0)) { v.length; } else if ($.u('d', 1)) ${R} = 'U3';\n  const w = $.p(act, 3) + $.p(act, 4);\n  return v + w;\n}\nconst rd = () => ${R};\nconst after = () => $.u('outer', rd());`
 }
 
-function planH5 (rng, prefix0) {
+function planH5 (rng, prefix0, seq) {
   let prefix = prefix0
   const names = Object.keys(PLACEMENTS)
-  const placement = rng.pick(names)
-  const idx = rng.pick([0, 0, 1, 1, 2, 7])
+  // draws kept (the streams of everything below stay as they were); the walk overrides them
+  let placement = rng.pick(names)
+  let idx = rng.pick([0, 0, 1, 1, 2, 7])
+  if (seq !== undefined) { placement = names[seq % names.length]; idx = [0, 1, 0, 1, 2, 7][Math.floor(seq / names.length) % 6] }
   // configured prefixes with characters beyond [A-Za-z0-9_$] (valid identifier letters), and user
   // identifiers that equal the reserved name only after such characters are replaced
   const variant = rng.below(6)
